@@ -1005,6 +1005,20 @@ fn corpus(p: Prop) -> Vec<(SCase, LenStyle)> {
             v.push((c.clone(), LenStyle::TieHeavy));
         }
         Prop::C05 => {
+            // a tentative cost of +inf (1e308 m at weight 10 overflows): `tentative < Cost::INFINITY` is
+            // false, vertex 1 stays unlabelled and the answer is "no path" (destination-less: an empty
+            // tree after one iteration) — correspondence only, the number is outside the quantifiers
+            let mut o = base(vec![(0, 1, 1.0e308)], 2);
+            o.weights = vec![("distance".into(), 10.0)];
+            o.target = Some(1);
+            v.push((o.clone(), LenStyle::Generic));
+            o.target = None;
+            v.push((o, LenStyle::Generic));
+            // parallel edges 0 -> 1 of lengths NaN and 129.7: the NaN cost improves on nothing, the
+            // route is the second edge
+            let mut o2 = base(vec![(0, 1, f64::NAN), (0, 1, 129.7)], 2);
+            o2.target = Some(1);
+            v.push((o2, LenStyle::Generic));
             // a vertex the haversine function refuses (latitude and longitude swapped): 0 -> 1 -> 2 with
             // vertex 1 at (x = 39.7, y = -105).  `run_a_star` asks for the estimate of every vertex it
             // labels whatever the weight factor, so Dijkstra 0 -> 2 ends in a traversal error although
@@ -1148,7 +1162,7 @@ pub fn run(ctx: &mut Ctx, p: Prop) -> &'static str {
             // that the other five keep their choices)
             let mut rx = Rng::for_case(ctx.seed, 9200 + tag(p), idx as u64);
             if rx.chance(1, 6) {
-                let numeric = rx.chance(2, 3) && std::env::var("VERIF_NO_NUMERIC_EXTREMES").is_err();
+                let numeric = rx.chance(2, 3);
                 let sh = shape_extreme(&mut c, &mut rx, numeric);
                 ctx.count(&format!("extreme_{}", sh.label));
                 shaped = Some(sh);
@@ -1602,7 +1616,10 @@ pub fn shape_extreme(c: &mut SCase, rng: &mut Rng, numeric: bool) -> Shaped {
             "x_network_rate"
         }
         12 => {
-            // vehicle restriction with an extreme limit / dimension, no axles or 255 of them
+            // vehicle restriction with an extreme limit / dimension, no axles or 255 of them (no NaN:
+            // the code compares limits in OrderedFloat's total order, where NaN is the greatest number;
+            // the model states the NaN-free domain — restriction files cannot hold a NaN)
+            let x = if x.is_nan() { f64::INFINITY } else { x };
             let params = VParams {
                 height: (if rng.chance(1, 3) { x } else { 3.0 }, *rng.pick(&DU)),
                 width: (2.0, *rng.pick(&DU)),
